@@ -17,6 +17,9 @@ CURATED = {
     "hcl_isobutene": "[CH3:1][C:2]([CH3:9])=[C:3]([H:7])[H:8].[H:4][Cl:5]>>[CH3:1][C:2]([CH3:9])([Cl:5])[C:3]([H:7])([H:8])[H:4]",
     "sn2": "[CH3:1][C:2]([H:5])([H:6])[Br:3].[O-:4][H:7]>>[CH3:1][C:2]([H:5])([H:6])[O:4][H:7].[Br-:3]",
     "imine_formation": "[CH3:1][C:2]([H:8])=[O:3].[CH3:4][N:5]([H:6])[H:7]>>[CH3:1][C:2]([H:8])=[N:5][CH3:4].[H:6][O:3][H:7]",
+    "protonation": "[CH3:1][N:2]([H:3])[H:4].[H+:5]>>[CH3:1][N+:2]([H:3])([H:4])[H:5]",
+    "deprotonation": "[CH3:1][C:2](=[O:3])[O:4][H:5].[O-:6][H:7]>>[CH3:1][C:2](=[O:3])[O-:4].[H:5][O:6][H:7]",
+    "hydride_addition": "[CH3:1][C:2]([H:6])=[O:3].[H-:4]>>[CH3:1][C:2]([H:6])([H:4])[O-:3]",
     "transesterification": "[CH3:1][C:2](=[O:3])[O:4][CH3:5].[CH3:6][CH2:7][O:8][H:9]>>[CH3:1][C:2](=[O:3])[O:8][CH2:7][CH3:6].[CH3:5][O:4][H:9]",
 }
 
